@@ -53,15 +53,18 @@ def execute_guarded(mod, trace):
     """execute with the per-run alarm; a run that does not return is a violation ('hang')"""
     from sim import seams
     seams.reset_library_state()
-    signal.signal(signal.SIGALRM, _alarm)
-    signal.alarm(RUN_ALARM_S)
+    # the budget is CPU time of this process, not wall-clock time: a machine under load, or a sandbox that is frozen for a
+    # snapshot and resumed a minute later, must not turn a millisecond run into a 'hang' (it did once, in a background soak).
+    # A run that blocks without burning CPU is left to the wall-clock watchdog in worker_main, which is far longer.
+    signal.signal(signal.SIGPROF, _alarm)
+    signal.setitimer(signal.ITIMER_PROF, RUN_ALARM_S)
     try:
         res = mod.execute(trace)
     except RunTimeout:
         res = Result()
-        res.violation = {'cls': 'hang', 'msg': 'the run did not return within %d s of real time' % RUN_ALARM_S, 'step': None}
+        res.violation = {'cls': 'hang', 'msg': 'the run did not return within %d s of CPU time' % RUN_ALARM_S, 'step': None}
     finally:
-        signal.alarm(0)
+        signal.setitimer(signal.ITIMER_PROF, 0)
     return res
 
 
@@ -105,7 +108,7 @@ def worker_main(prop, seed, start, stride, count, out_dir, wallcap, log_digests,
             trace['prop'] = mod.PROP
             with open(pending_path, 'w') as f:     # a hang leaves a replayable trace behind
                 f.write(jdump({'prop': prop, 'seed': seed, 'index': index, 'trace': trace}))
-            faulthandler.dump_traceback_later(RUN_ALARM_S + 30, exit=True)
+            faulthandler.dump_traceback_later(10 * RUN_ALARM_S, exit=True)      # wall clock: only for a run that blocks without using CPU
             res = execute_guarded(mod, trace)
             faulthandler.cancel_dump_traceback_later()
         except Exception:
